@@ -58,6 +58,9 @@ def check(prog: Program, rep):
     rep.rule("C12.R7", "bounds handed to add_variables become the bounds of the variables: scalar recognition covers numpy scalars (no silent default)", floor=1)
     bounds_materialised(prog, rep, "C12.R7")
     integer_bounds_rounded(prog, rep, "C12.R7")
+    # every name the models read through `self.solver.` is a member of the wrapper
+    from rules.values import solver_members_exist
+    solver_members_exist(prog, rep, "C12.R7")
     rep.rule("C12.T", "helpers conform to the frozen formulation table (structure of rows, families, bounds)", floor=14)
     conformance(prog, rep, "C12.T", "C12")
 
